@@ -9,6 +9,17 @@ def make_cases(rng, tier, n):
     cases, stats = [], {}
     for i in range(n):
         c = gen.basic_project(rng, "co-%d" % i, tier, stats=stats, allow_skip=False, allow_inputs=False)
+        big = []
+        if i % 40 == 8:
+            # objects of tens of MiB (32 MiB and one byte more), stand-alone and inside a directory: whatever path such sizes take
+            # through checkout, an entry in the way is neither followed nor truncated
+            c["init"] += [("file", b"huge.bin", "g:%d:%d" % (rng.randrange(100), 1 << 25)), ("dir", b"hugedir"), ("dir", b"hugedir/sub"),
+                          ("file", b"hugedir/sub/huge1.bin", "g:%d:%d" % (rng.randrange(100), (1 << 25) + 1)),
+                          ("file", b"hugedir/small.bin", "g:%d:5" % rng.randrange(100))]
+            c["stages"] += [(b"huge.yaml", dict(cmd=b"", wd=b".", out=[(b"huge.bin", "")])), (b"hugedir.yaml", dict(cmd=b"", wd=b".", out=[(b"hugedir", "d")]))]
+            c["timeout"] = 240
+            big = [b"huge.bin", b"hugedir/sub/huge1.bin"]
+            stats["huge_objects"] = stats.get("huge_objects", 0) + 1
         arts = s1eval.artifacts(c)
         files = [e for e in c["init"] if e[0] == "file" and any(e[1] == p or e[1].startswith(p + b"/") for p, fl, sp in arts)]
         dirs_in = [e for e in c["init"] if e[0] == "dir" and any(e[1].startswith(p + b"/") for p, fl, sp in arts if "d" in fl and "r" not in fl)]
@@ -16,6 +27,8 @@ def make_cases(rng, tier, n):
         chosen = {}
         for f in files:
             st = rng.choice(STATES) if rng.random() < 0.5 else "keep"
+            if f[1] in big:
+                st = ["different", "foreign", "dangling", "proper_prefix"][(i // 40 + big.index(f[1])) % 4]
             if any(f[1].startswith(d + b"/") for d in chosen if chosen[d] in ("file_in_way_dir",)):
                 continue
             chosen[f[1]] = st
@@ -75,7 +88,7 @@ def make_cases(rng, tier, n):
             chosen[p] = "art_root_" + how
             stats["state_art_root_" + how] = stats.get("state_art_root_" + how, 0) + 1
         c["pre_index"] = len(ops)
-        c["strategy"] = rng.choice("lc")
+        c["strategy"] = rng.choice("lc") if not big else "c"
         ops.append(("checkout", c["strategy"], False, []))
         c["ops"] = ops
         c["chosen"] = {k.hex(): v for k, v in chosen.items()}
